@@ -10,7 +10,7 @@ import json
 import os
 from checklib import sh, parse_kv_line
 
-PRIMARY = ["skip-dropped", "platform-dropped", "language-dup", "suffix-lost", "preamble-deleted"]
+PRIMARY = ["skip-dropped", "platform-dropped", "language-dup", "suffix-lost", "preamble-deleted", "filtered-expectation-changed"]
 WHAT = {
     "skip-dropped": "--update drops a :skip test from the rewritten corpus file",
     "platform-dropped": "--update drops a test whose :platform(..) does not match this OS",
@@ -22,6 +22,8 @@ WHAT = {
     "extra-tests": "additional tests appear after --update",
     "passes": "an updated error-free test does not pass afterwards",
     "idempotent": "a second --update changes the file again",
+    "delims-changed": "header/divider delimiter lengths of a test differ after --update",
+    "filtered-expectation-changed": "a test excluded by the --include/--exclude filter had its well-formed expectation changed by --update",
     "format-normalize": "normalize_sexp_output(format_sexp(s)) != s for an S-expression printed by the runtime",
 }
 
@@ -40,7 +42,7 @@ def run(ctx):
         "the idempotence clause is judged only when every S-expression expectation is empty or one parenthesised group",
         "a run stopped by :fail-fast or an unknown :language(..) writes nothing: such a file counts as not updated "
         "(update_passes is judged only on files that were written)",
-        "include/exclude filters, --show-fields and directory traversal are not exercised (file-level update only)",
+        "the --file-name filter, --show-fields and directory traversal are not exercised (file-level update, with and without --include/--exclude)",
     ]
     ctx.regen()
     ctx.prove(["TsVerif.C20.Props"], "TsVerif/C20/Audit.lean")
@@ -72,12 +74,13 @@ def run(ctx):
     # which proposed repairs the model follows: those whose finding is recorded as fixed
     # (VERIF_C20_ASSUME_FIXED=a,b,.. or "all" overrides, for trying fixes with tools/with_patch)
     flag_of = {"keepUnrun": "C20-skip-dropped", "oneCorrection": "C20-language-dup",
-               "keepSuffixPreamble": "C20-suffix-lost", "quoteReset": "C20-format-sexp-quote-state"}
+               "keepSuffixPreamble": "C20-suffix-lost", "quoteReset": "C20-format-sexp-quote-state",
+               "keepCstFiltered": "C20-filtered-cst-reformatted"}
     status = {k["id"]: k.get("status") for k in ctx.known}
     assume = [x for x in os.environ.get("VERIF_C20_ASSUME_FIXED", "").split(",") if x]
     fixes = {f: (status.get(i) == "fixed" or f in assume or "all" in assume) for f, i in flag_of.items()}
     ctx.coverage["model_follows_repairs"] = fixes
-    fline = "fixes " + " ".join("1" if fixes[f] else "0" for f in ("keepUnrun", "oneCorrection", "keepSuffixPreamble", "quoteReset"))
+    fline = "fixes " + " ".join("1" if fixes[f] else "0" for f in ("keepUnrun", "oneCorrection", "keepSuffixPreamble", "quoteReset", "keepCstFiltered"))
     rc, out = sh("(echo '%s'; cat %s) | %s" % (fline, ops, driver), timeout=3000)
     evals = 0
     distinct = set()
@@ -86,7 +89,7 @@ def run(ctx):
     compared = 0
     judge_bad = 0
     dist = {"tests": {}, "suffixed": 0, "crlf": 0, "with_attrs": 0, "with_delimlike_inputs": 0, "with_wrong_expectations": 0,
-            "written": 0, "not_written": 0, "wellformed_expectations": 0, "bytes_total": 0, "clauses_failed": {}}
+            "written": 0, "not_written": 0, "update_filter": {"n": 0, "i": 0, "x": 0}, "files_with_carried_over_tests": 0, "wellformed_expectations": 0, "bytes_total": 0, "clauses_failed": {}}
     corr_viol = []
     sx_total = sx_class = 0
     for line in out.split("\n"):
@@ -106,6 +109,8 @@ def run(ctx):
         dist["with_wrong_expectations"] += int(kv.get("wrong", "0")) > 0
         dist["written" if kv.get("wrote") == "1" else "not_written"] += 1
         dist["bytes_total"] += int(kv.get("bytes", "0"))
+        dist["update_filter"][kv.get("filter", "n")] = dist["update_filter"].get(kv.get("filter", "n"), 0) + 1
+        dist["files_with_carried_over_tests"] += int(kv.get("carried", "0")) > 0
         sx_total += int(kv.get("sx", "0"))
         sx_class += int(kv.get("sxclass", "0"))
         if kv.get("sx") != kv.get("sxclass"):
@@ -135,7 +140,10 @@ def run(ctx):
             for c in clauses:
                 dist["clauses_failed"][c] = dist["clauses_failed"].get(c, 0) + 1
                 fp = {"clause": c}
+                if c == "filtered-expectation-changed":
+                    fp["carried_cst"] = "1" if int(kv.get("carriedcst", "0")) > 0 else "0"
                 if c not in PRIMARY:
+                    fp["carried_cst"] = "1" if int(kv.get("carriedcst", "0")) > 0 else "0"
                     fp.update(flags)
                     fp["quoted"] = kv.get("quoted", "0")
                 ctx.violation("judge", "C20 judge failed on the real files: %s — %s" % (c, WHAT.get(c, c)),
@@ -156,7 +164,8 @@ def run(ctx):
         "rule": "one evaluation = one corpus file (committed corpus first, then generated: 1-20 tests, names with punctuation/"
                 "newlines/non-ASCII, attribute lines :skip/:error/:fail-fast/:language/:cst/:platform + malformed ones, delimiter "
                 "lengths 3-12 (closing may differ), 40% with a suffix, inputs for zoo languages stmt/lst incl. delimiter-like lines and "
-                "erroneous inputs, expectations right/wrong/missing/badly indented/commented/junk, CRLF) run through the real "
+                "erroneous inputs, expectations right/wrong/missing/badly indented/commented/junk, CRLF; 40% of the files updated through a "
+                "name filter, TestOptions.include or .exclude, so that some tests are carried over unprocessed) run through the real "
                 "parse_tests, run_tests_at_path(update=true), parse_tests, run_tests_at_path(update=true); non-trivial := >= 2 tests and "
                 "(an attribute or a delimiter-like input line or a test that does not pass as written); distinct by hash of the file bytes",
         "samples": samples, "input_distribution": dist,
